@@ -35,6 +35,10 @@ def main():
         print('refusing: /repo is not clean:\n' + out)
         return 2
     res = {'name': a.name, 'property': meta['property'], 'checks': {}, 'tier': a.tier}
+    oldp = os.path.join(d, 'result.json')
+    if a.skip_confirm and os.path.exists(oldp):
+        old = json.load(open(oldp))
+        res.update({k: old[k] for k in ('demo_clean_rc', 'pytest_rc', 'pytest_tail', 'demo_mutated_rc', 'demo_mutated_tail') if k in old})
     demo = os.path.join(d, 'demo.py')
     if not a.skip_confirm:
         rc0, o0 = sh(['/venv/bin/python', demo], env=env, timeout=600)
